@@ -152,8 +152,15 @@ func (ssc *defaultStatefulSetControl) ListRevisions(set *apps.StatefulSet) ([]*k
 		return nil, err
 	}
 	res := []*kubeapps.ControllerRevision{}
+	// A revision that carries both the selector labels and the upgrade marker
+	// (the state syncLabels leaves behind) is returned by both queries.
+	seen := make(map[string]struct{})
 	for _, item := range append(revisions.Items, revisinsToUpgrade.Items...) {
 		local := item
+		if _, ok := seen[local.Name]; ok {
+			continue
+		}
+		seen[local.Name] = struct{}{}
 		res = append(res, &local)
 	}
 	return res, nil
